@@ -5,9 +5,11 @@ ID = 'C17'
 GENERATORS = ['gen_font']
 COQ_TARGETS = ['Props/C17.vo', 'Run/RunC17.vo']
 PROPS_MODULE = 'Props.C17'
-THEOREMS = ['psf2_roundtrip', 'psf2_roundtrip_general', 'raw_roundtrip', 'wf_font_256_is_raw', 'dcs_roundtrip',
+THEOREMS = ['psf2_roundtrip', 'psf2_roundtrip_general', 'psf2_partial_roundtrip', 'pad_font_complete', 'raw_roundtrip',
+            'raw_partial_roundtrip', 'wf_font_256_is_raw', 'dcs_roundtrip',
             'dcs_magic_collision_refuted', 'known_1_witness', 'xbin_embed_roundtrip', 'adf_idf_embed_roundtrip',
-            'icydraw_embed_roundtrip', 'from_bytes_total', 'dcs_total', 'create_8_rows',
+            'icydraw_embed_roundtrip', 'from_bytes_total', 'dcs_total', 'to_psf2_bytes_total', 'convert_to_u8_data_total',
+            'writers_negative_height_refuted', 'create_8_rows',
             'tdf_roundtrip', 'tdf_single_roundtrip', 'tdf_writer_overflow_is_error', 'from_tdf_total']
 SWEEP_LEMMAS = []
 TRUSTED = ['Coq 8.16.1 kernel + vm_compute (model evaluation in stage C); no axioms (Print Assumptions: closed)',
@@ -23,10 +25,10 @@ UNMODELLED = ['collection of the DCS string by the ANSI parser state machine (ES
 ASSUMPTIONS = ['byte strings are shorter than 2^31 bytes (usize -> i32 casts of lengths and heights are exact); usize is 64 bit',
                'b64_dec (b64_enc x) = Some x for the base64 engine (hypothesis of dcs_roundtrip)',
                'from_utf8_lossy s = s for valid UTF-8 s (hypothesis of tdf_roundtrip)',
-               'dev profile semantics: an unchecked char built from a code >= 0xD800 aborts (debug precondition check)']
+               'the glyph map of a BitFont is a table indexed by code 0, 1, 2, … (what every constructor of the crate builds); char::from_u32 is None exactly on 0xD800..=0xDFFF and above 0x10FFFF (is_char; the lower boundary is exercised in stage C, the theorems only use codes below MAX_GLYPHS = 0xD800)']
 RULE = ('bitmap fonts: width 8, height 1..32 (biased to 1, 8, 14, 16, 32), 256 or 512 glyphs, glyph rows random / constant / bit patterns, '
         'plus every built-in font page 0..=42 and every SAUCE font read from the data files named in the fonts!/sauce_fonts! macros; '
-        'encoders are also run on ill-formed fonts (missing glyphs, wrong row count, length <= 0, width != 8); decoders on the encodings, '
+        'encoders are also run on fonts with glyphs missing at the end of the table or more glyphs than `length` (expected: padded / cut to `length` with empty glyphs, incl. a table reaching code 0xD800), on ill-formed fonts (wrong row count, length <= 0, width != 8, negative height); decoders on the encodings, '
         'on truncations / header-field mutations / byte corruptions of valid PSF1, PSF2 and raw files and on short inputs; '
         'TheDraw fonts: all three types, 0..94 defined glyphs of 1..30 x 1..12, names of 0..12 bytes (ASCII and multi-byte UTF-8), spaces 0..40, bundles of 1..34 fonts, '
         'plus ill-formed ones (name too long, NUL in name, spaces out of range, > 65535 bytes of glyph data) and truncations / corruptions of the files; '
@@ -37,6 +39,12 @@ ERR_CODE = {'UnsupportedVersion': 3, 'LengthMismatch': 4, 'UnknownFontFormat': 5
             'GlyphOutsideFontDataSize': 16, 'LetterSpaceTooMuch': 17, 'IdLengthMismatch': 18, 'FontIndicatorMismatch': 19}
 IMPORTS = 'From IE Require Import Lib.C17Lib Model.Font Model.Tdf Run.RunC17.\nLocal Open Scope N_scope.'
 KNOWN_DCS = 'C17-dcs-magic-collision'
+
+def budget(ctx, quick, esc, thorough):
+    """three budgets: quick tier; escalated run (a stage broke or a modelled function drifted from its anchor hash:
+    bigger than quick, but the whole run has to stay under ~6 minutes); thorough tier"""
+    if ctx.thorough: return thorough
+    return esc if ctx.escalated else quick
 
 def hexs(bs):
     return ''.join('%02x' % b for b in bs) or '-'
@@ -115,6 +123,33 @@ def gen_odd_font(rng):
     w = rng.choice([8, 8, 0, 6, 9, 16, -1, 70000])
     hh = h if rng.random() < 0.8 else rng.choice([-1, -3, 300, 70000])
     return Font(w, hh, length, [bytes(rng.randrange(256) for _ in range(gh)) for _ in range(n)])
+
+def pad_font(f):
+    """what the writers emit since /repo c9c7437: exactly `length` glyphs, a missing one is `height` zero bytes"""
+    n = max(f.length, 0)
+    return Font(f.w, f.h, f.length, [f.glyphs[i] if i < len(f.glyphs) else bytes(f.h) for i in range(n)])
+
+def gen_partial_font(rng):
+    """well-formed dimensions, but glyphs missing at the end of the table (or more glyphs than `length`)"""
+    h = rng.choice([1, 2, 8, 14, 16, rng.randint(1, 32)])
+    length = rng.choice([256, 256, 512, 1, 2, 5, 100, 300])
+    k = rng.random()
+    if k < 0.15: n = 0
+    elif k < 0.7: n = rng.randrange(0, length + 1)
+    elif k < 0.85: n = length - 1
+    else: n = length + rng.randint(1, 4)
+    return Font(8, h, length, [rand_rows(rng, h) for _ in range(n)])
+
+# the inputs on which the model of the C17 branch (unwrap of a missing glyph: panic) and the merged code (empty glyph)
+# disagreed; kept as regression cases of both stages
+PARTIAL_REGRESSION = [Font(0, 1, 5, [b'\x81', b'\x1d', b'\x60']), Font(6, 1, 5, [b'\x48', b'\x16', b'\x82']), Font(8, 2, 1, []),
+                      Font(8, 1, 3, [b'\x01', b'\x02', b'\x03', b'\x04'])]
+# stage C only: rows shorter than the height; the witness of Props.C17.writers_negative_height_refuted (the one panic the
+# writers have left: `vec![0; height as usize]` for a missing glyph of a font with a negative height)
+ODD_REGRESSION = [Font(8, 300, 5, [bytes([40 + i] * 5) for i in range(3)]), Font(8, -1, 1, [])]
+# a table that reaches the first code that is not a char (0xD800): written as an empty glyph, no abort
+def surrogate_font(length=0xD801, n=0xD800):
+    return Font(8, 1, length, [bytes([i & 255]) for i in range(n)])
 
 def le32(v): return bytes([(v >> (8 * i)) & 255 for i in range(4)])
 
@@ -468,7 +503,7 @@ def correspondence(ctx):
     cases = []; exprs = []; post = []        # post: None | 'tdfdec' | ('dcs', slot)
     def add(case, expr, p=None):
         cases.append(case); exprs.append(expr); post.append(p)
-    nf = ctx.n(60, 600)
+    nf = budget(ctx, 60, 180, 600)
     fonts = [gen_wf_font(rng, big_ok=(i % 4 == 0)) for i in range(nf)]
     small = [avoid_magic(gen_wf_font(rng, big_ok=False, length=256)) for _ in range(12)]
     files = []
@@ -482,34 +517,46 @@ def correspondence(ctx):
     for f in small:
         slot = rng.choice([0, 1, 9, 10, 255, 65536, 2 ** 63 - 1])
         add('c17.ansi %d %s' % (slot, f.spec()), 'run_ansi %d %s %s' % (slot, f.coq(), clist(base64.b64encode(f.raw()))))
-    for i in range(ctx.n(60, 600)):
+    for i in range(budget(ctx, 60, 250, 600)):
         f = gen_odd_font(rng)
         kind = rng.choice(['psf2', 'raw'])
-        if kind == 'raw' and f.h > 1000: f.h = 3
-        if kind == 'raw' and f.h < 0 and len(f.glyphs) < max(f.length, 0):
+        # both writers pad a missing glyph with `height` zero bytes (c9c7437)
+        if f.h > 1000 and (kind == 'raw' or i % 4): f.h = 3
+        if f.h < 0 and len(f.glyphs) < max(f.length, 0):
             # vec![0; negative as usize]: capacity overflow panic, the process survives, but keep it rare
             if rng.random() < 0.7: f.h = 2
         add('c17.%s %s' % (kind, f.spec()), 'run_%s %s' % (kind, f.coq()))
+    for f in PARTIAL_REGRESSION + ODD_REGRESSION + [gen_partial_font(rng) for _ in range(budget(ctx, 20, 60, 150))]:
+        add('c17.psf2 ' + f.spec(), 'run_psf2 ' + f.coq())
+        if f.h <= 255: add('c17.raw ' + f.spec(), 'run_raw ' + f.coq())
+    # codes that are not chars: 0xD800 is reached with every glyph below it present (every tier); a table with glyphs on
+    # both sides of the surrogate range (the harness skips the codes that are not chars) ties the upper boundary 0xDFFF/0xE000
+    f = surrogate_font()
+    add('c17.raw ' + f.spec(), 'run_raw ' + f.coq())
+    if ctx.thorough or ctx.escalated: add('c17.psf2 ' + f.spec(), 'run_psf2 ' + f.coq())
+    if ctx.thorough:
+        f = surrogate_font(0xE002, 0xE001)
+        add('c17.psf2 ' + f.spec(), 'run_psf2 ' + f.coq())
     # decoders
     blt = builtin_files(ctx)
     for kind, key, file, data in (blt if (ctx.thorough or ctx.escalated) else blt[:3] + blt[31:34] + blt[-3:]):
         add('c17.fb ' + hexs(data), 'run_fb ' + clist(data))
-    for b in files[:ctx.n(40, 400)] + REGRESSION_FILES + gen_malformed_font_files(rng, ctx.n(250, 4000)):
+    for b in files[:budget(ctx, 40, 120, 400)] + REGRESSION_FILES + gen_malformed_font_files(rng, budget(ctx, 250, 1500, 4000)):
         add('c17.fb ' + hexs(b), 'run_fb ' + clist(b))
     for b in (BIG_FILES if (ctx.thorough or ctx.escalated) else BIG_FILES[:1]):
         add('c17.fb ' + hexs(b), 'run_fb ' + clist(b))
-    for i in range(ctx.n(60, 600)):
+    for i in range(budget(ctx, 60, 250, 600)):
         h = rng.choice([0, 1, 2, 3, 5, 8, 16, 255]); ln = rng.choice([0, 1, 2, 5, 16, 255, 256, 257, 512, 768])
         data = bytes(rng.randrange(256) for _ in range(ln))
         k = rng.choice(['c8', 'basic']); w = rng.choice([8, 8, 0, 255])
         add('c17.%s %d %d %s' % (k, w, h, hexs(data)), 'run_%s %d %d %s' % (k, w, h, clist(data)))
-    for slot, s in gen_dcs_strings(rng, ctx.n(60, 600), small):
+    for slot, s in gen_dcs_strings(rng, budget(ctx, 60, 250, 600), small):
         pay = dcs_payload(s)
         dec = b64_strict(pay) if pay is not None else None
         add('c17.dcs %d %s' % (slot, hexs(b'\x1bP' + s + b'\x1b\\')),
             'run_dcs %s %s' % (clist(s), 'None' if dec is None else '(Some %s)' % clist(dec)), ('dcs', slot))
     # font slots of the art formats
-    for i in range(ctx.n(16, 120)):
+    for i in range(budget(ctx, 16, 48, 120)):
         ext = ['xb', 'adf', 'idf', 'icy'][i % 4]
         if ext == 'xb': f = gen_wf_font(rng, length=256)
         elif ext == 'icy': f = gen_wf_font(rng, big_ok=(i % 8 == 3))
@@ -519,7 +566,7 @@ def correspondence(ctx):
              'icy': 'run_icy %s %s' % (clist(b'c17 test font'), f.coq())}[ext]
         add('c17.embed %s %s' % (ext, f.spec()), e)
     # TheDraw fonts
-    nt = ctx.n(40, 400)
+    nt = budget(ctx, 40, 130, 400)
     tfiles = []
     for i in range(nt):
         k = rng.random()
@@ -534,9 +581,9 @@ def correspondence(ctx):
     for t in ([overflow_tfont(94), overflow_tfont(89)] if (ctx.thorough or ctx.escalated) else [overflow_tfont(94)]):
         add('c17.tdfenc bundle ' + tfonts_spec([t]), 'run_tdfenc false [%s]' % t.coq())
     tfiles = [b for b in tfiles if len(b) < 20000] or tfiles
-    for b in tfiles[:ctx.n(25, 250)] + gen_malformed_tdf(rng, tfiles, ctx.n(150, 3000)):
+    for b in tfiles[:budget(ctx, 25, 80, 250)] + gen_malformed_tdf(rng, tfiles, budget(ctx, 150, 1000, 3000)):
         add('c17.tdfdec ' + hexs(b), 'run_tdfdec ' + clist(b), 'tdfdec')
-    for i in range(ctx.n(150, 3000)):
+    for i in range(budget(ctx, 150, 1500, 3000)):
         b = gen_utf8ish(rng)
         add('c17.utf8 ' + hexs(b), 'run_utf8 ' + clist(b), 'utf8')
     impl = ctx.impl(cases, per_case_timeout=20)
@@ -603,7 +650,7 @@ def search(ctx, broken):
         d = b.get('detail') or {}
         if isinstance(d, dict) and d.get('full_case'): first_cases.append(d['full_case'])
     # ---- 1. bitmap fonts: random + built-in
-    fonts = [avoid_magic(gen_wf_font(rng, big_ok=(i % 3 == 0))) for i in range(ctx.n(120, 1500))]
+    fonts = [avoid_magic(gen_wf_font(rng, big_ok=(i % 3 == 0))) for i in range(budget(ctx, 120, 700, 1500))]
     labels = ['random'] * len(fonts)
     blt = builtin_files(ctx)
     cases = []
@@ -658,8 +705,45 @@ def search(ctx, broken):
     for i, c, r in zip(idx2, c2, r2):
         if r[0] != 'ok': fail('raw-roundtrip-%s' % r[0], c, r, None, 'create_8/from_basic failed (%s)' % labels[i])
         elif r[1] != fonts[i].obs(): fail('raw-roundtrip-mismatch', c, r[1], fonts[i].obs(), 'create_8/from_basic(convert_to_u8_data(font)) changed the font (%s)' % labels[i])
+    # round trip 2b: glyphs missing from the table (regression: the writers used to unwrap / build unchecked chars).
+    # The file must be the reference PSF2 file of the padded font and must load as the padded font.
+    partial = PARTIAL_REGRESSION + [surrogate_font(0xD800, 0xD7FE)] + [gen_partial_font(rng) for _ in range(budget(ctx, 40, 300, 600))]
+    for fc in first_cases:
+        a = fc.split()
+        if a[0] in ('c17.psf2', 'c17.raw'):
+            try:
+                f = font_from_spec(a[1:])
+                if 0 <= f.w < 2 ** 31 and 1 <= f.h <= 4096 and 0 <= f.length <= 0xD800 and all(len(g) == f.h for g in f.glyphs): partial.insert(0, f)
+            except Exception: pass
+    c1 = ['c17.psf2 ' + f.spec() for f in partial]
+    r1 = ctx.impl(c1, per_case_timeout=20); ncases += len(c1)
+    c2 = []; idx2 = []
+    for i, (f, c, r) in enumerate(zip(partial, c1, r1)):
+        distinct.add(f.key())
+        want = ref_psf2(pad_font(f))
+        if r[0] != 'ok': fail('to_psf2_bytes-%s' % r[0], c, r, trunc(list(want)), 'encoder failed on a font with %d of %d glyphs present' % (len(f.glyphs), f.length)); continue
+        if bytes(r[1]) != want: fail('psf2-partial-mismatch', c, r[1], list(want), 'PSF2 file differs from the file of the font padded with empty glyphs'); continue
+        c2.append('c17.fb ' + hexs(r[1])); idx2.append(i)
+    r2 = ctx.impl(c2, per_case_timeout=20); ncases += len(c2)
+    for i, c, r in zip(idx2, c2, r2):
+        want = pad_font(partial[i]).obs()
+        if r[0] != 'ok': fail('psf2-roundtrip-%s' % r[0], c1[i], r, want[:8], 'from_bytes(to_psf2_bytes(font with missing glyphs)) failed')
+        elif r[1] != want: fail('psf2-roundtrip-mismatch', c1[i], r[1], want, 'PSF2 round trip of a font with missing glyphs is not the padded font')
+    p256 = [f for f in partial if f.length == 256 and f.h <= 255]
+    c1 = ['c17.raw ' + f.spec() for f in p256]
+    r1 = ctx.impl(c1, per_case_timeout=20); ncases += len(c1)
+    c2 = []; idx2 = []
+    for i, (f, c, r) in enumerate(zip(p256, c1, r1)):
+        if r[0] != 'ok' or bytes(r[1]) != pad_font(f).raw():
+            fail('convert_to_u8_data-mismatch', c, r if r[0] != 'ok' else r[1], list(pad_font(f).raw()), 'raw glyph data of a font with missing glyphs is not padded with empty glyphs'); continue
+        c2.append('c17.c8 8 %d %s' % (f.h, hexs(r[1]))); idx2.append(i)
+    r2 = ctx.impl(c2, per_case_timeout=20); ncases += len(c2)
+    for i, c, r in zip(idx2, c2, r2):
+        want = pad_font(p256[i]).obs()
+        if r[0] != 'ok': fail('raw-roundtrip-%s' % r[0], c, r, None, 'create_8 failed on padded raw data')
+        elif r[1] != want: fail('raw-roundtrip-mismatch', c, r[1], want, 'create_8(convert_to_u8_data(font with missing glyphs)) is not the padded font')
     # round trip 3: DCS  (a subset: the stream is base64 of the whole font) + the magic collision witness
-    sub = f256[:ctx.n(40, 400)] + [(i, f) for i, f in f256 if labels[i] != 'random'][:ctx.n(6, 100)]
+    sub = f256[:budget(ctx, 40, 200, 400)] + [(i, f) for i, f in f256 if labels[i] != 'random'][:budget(ctx, 6, 50, 100)]
     collide = []
     for g0 in (b'\x36\x04', b'\x72\xb5\x4a\x86'):
         f = gen_wf_font(rng, length=256); f = Font(8, 16, 256, [rand_rows(rng, 16) for _ in range(256)])
@@ -686,13 +770,13 @@ def search(ctx, broken):
                      'font loaded from its own CTerm:Font DCS sequence differs')
     # round trip 4: font slots of XBin / ADF / IDF / IcyDraw
     c1 = []; want = []
-    pool = fonts[:ctx.n(24, 300)] + [f for f, l in zip(fonts, labels) if l != 'random'][:ctx.n(8, 100)]
+    pool = fonts[:budget(ctx, 24, 150, 300)] + [f for f, l in zip(fonts, labels) if l != 'random'][:budget(ctx, 8, 50, 100)]
     for j, f in enumerate(pool):
         for ext in ('xb', 'adf', 'idf', 'icy'):
             if ext in ('adf', 'idf') and (f.h != 16 or f.length != 256): continue
             if ext == 'xb' and f.length != 256: continue
             c1.append('c17.embed %s %s' % (ext, f.spec())); want.append(f)
-    for j in range(ctx.n(12, 100)):
+    for j in range(budget(ctx, 12, 50, 100)):
         f = Font(8, 16, 256, [rand_rows(rng, 16) for _ in range(256)])
         for ext in ('adf', 'idf'):
             c1.append('c17.embed %s %s' % (ext, f.spec())); want.append(f)
@@ -702,7 +786,7 @@ def search(ctx, broken):
         if r[0] != 'ok': fail('embed-%s-%s' % (ext, r[0]), c, r, None, 'saving/loading a buffer with this font in slot 0 failed')
         elif r[1] != f.obs(): fail('embed-%s-roundtrip-mismatch' % ext, c, r[1], f.obs(), 'font slot of the reloaded %s file differs' % ext)
     # ---- 2. no panic / termination of the bitmap font loader
-    mal = REGRESSION_FILES + BIG_FILES + gen_malformed_font_files(rng, ctx.n(600, 8000))
+    mal = REGRESSION_FILES + BIG_FILES + gen_malformed_font_files(rng, budget(ctx, 600, 5000, 8000))
     for fc in first_cases:
         if fc.startswith('c17.fb '): mal.insert(0, unhex(fc.split()[1]))
     c1 = ['c17.fb ' + hexs(b) for b in mal]
@@ -721,7 +805,7 @@ def search(ctx, broken):
         if r[0] != 'ok': fail('dcs-%s' % r[0], c, r, None, 'a CTerm:Font DCS sequence with a short payload must be rejected, not crash')
     # ---- 3. TheDraw fonts
     bundles = []
-    for i in range(ctx.n(60, 700)):
+    for i in range(budget(ctx, 60, 350, 700)):
         k = rng.random()
         if k < 0.7: fs = [gen_tfont(rng, small=(i % 3 != 0)) for _ in range(rng.choice([1, 1, 2, 3, 6]))]
         elif k < 0.85: fs = [gen_tfont(rng, max_glyphs=4, small=True) for _ in range(rng.choice([12, 34]))]
@@ -800,7 +884,7 @@ def search(ctx, broken):
     # ---- 4. no panic / termination of the TDF reader
     valid = [ref_tdf_write(fs, single) for fs, single in [b for b in bundles if b[0] != 'case'][:60]]
     valid = [b for b in valid if len(b) < 30000] or valid
-    mal = gen_malformed_tdf(rng, valid, ctx.n(600, 8000)) + [bytes(232), bytes(233), b'\x13TheDraw FONTS file\x1a' + bytes(213)]
+    mal = gen_malformed_tdf(rng, valid, budget(ctx, 600, 5000, 8000)) + [bytes(232), bytes(233), b'\x13TheDraw FONTS file\x1a' + bytes(213)]
     for fc in first_cases:
         if fc.startswith('c17.tdfdec '): mal.insert(0, unhex(fc.split()[1]))
     c1 = ['c17.tdfdec ' + hexs(b) for b in mal]
@@ -856,10 +940,10 @@ def replay(ctx, body):
         if expr: expr += f.coq()
         if r[0] != 'ok': verdict = False
         elif kind == 'c17.psf2':
-            r2 = run('c17.fb ' + hexs(r[1])); print('from_bytes of that:', str(r2)[:300]); verdict = r2[0] == 'ok' and r2[1] == f.obs()
+            r2 = run('c17.fb ' + hexs(r[1])); print('from_bytes of that:', str(r2)[:300]); verdict = r2[0] == 'ok' and r2[1] == pad_font(f).obs()
         elif kind == 'c17.raw':
             r2 = run('c17.c8 8 %d %s' % (f.h, hexs(r[1]))); r3 = run('c17.basic 8 %d %s' % (f.h, hexs(r[1])))
-            print('create_8 of that:', str(r2)[:300]); verdict = bytes(r[1]) == f.raw() and r2[0] == 'ok' and r2[1] == f.obs() and r3 == r2
+            print('create_8 of that:', str(r2)[:300]); verdict = bytes(r[1]) == pad_font(f).raw() and r2[0] == 'ok' and r2[1] == pad_font(f).obs() and r3 == r2
         elif kind == 'c17.ansi':
             r2 = run('c17.dcs %s %s' % (a[1], hexs(r[1]))); print('parser fed with that:', str(r2)[:300])
             verdict = r2[0] == 'ok' and r2[1] == [0, 1] + f.obs()
@@ -888,12 +972,12 @@ def replay(ctx, body):
     return 0 if verdict else 1
 
 LEVEL_TEXT = ('Machine-checked proof (Coq, closed under the global context) over models of the font code: for every font of width 8, height 1..32, 256 or 512 glyphs and arbitrary row bytes '
-              'from_bytes(to_psf2_bytes f) = f (also for every width/height < 2^31 and up to 0xD800 glyphs); create_8/from_basic(convert_to_u8_data f) = f; the XBin, ADF/IDF and IcyDraw font slots '
+              'from_bytes(to_psf2_bytes f) = f (also for every width/height < 2^31 and up to 0xD800 glyphs; a font with any number of its glyphs missing is written with empty glyphs in their place and reads back as exactly that padded font, through PSF2 and through the raw 8 bit data); create_8/from_basic(convert_to_u8_data f) = f; the XBin, ADF/IDF and IcyDraw font slots '
               'read back the font written; the CTerm:Font DCS string loads f into the slot it names for every slot < 2^64, given the base64 inverse law and that the raw data does not begin with a PSF magic '
               '(that exclusion is format-inherent: known finding C17-dcs-magic-collision, with a proved witness); every well-formed TheDraw font / bundle (names <= 12 bytes of NUL-free UTF-8, spaces 0..40, 94 slots, '
               'glyph sizes < 256, NUL-free data, colour data in (char, attribute) pairs, <= 65535 bytes of glyph data per font, any number >= 1 of fonts) reads back identically; and BitFont::from_bytes, the DCS font loader, '
-              'the IcyDraw slot reader and from_tdf_bytes return Ok or Err (no panic, abort or unbounded loop) for every byte string. The theorems are about the tree after seven small fix: commits (short inputs, zero height, '
-              'ragged tail, PSF2 header arithmetic, > 0xD800 glyphs, TDF 16 bit overflow, truncated TDF). The models are hand-written and tied to the Rust code by differential execution on every run; constants come from the source.')
+              'and from_tdf_bytes return Ok or Err (no panic, abort or unbounded loop) for every byte string, and the two writers to_psf2_bytes / convert_to_u8_data return for every font whose height is not negative. The theorems are about the merged tree: C17\'s fix: commits (short inputs, zero height, '
+              'ragged tail, PSF2 header arithmetic, > 0xD800 glyphs, TDF 16 bit overflow, truncated TDF) plus C10\'s c9c7437 (checked glyph-index to char conversion, empty glyph instead of unwrap). The models are hand-written and tied to the Rust code by differential execution on every run; constants come from the source.')
 LEVEL_NOTE = ('Trusted: Coq kernel + vm_compute; hand models tied by stage C only (no translator for the function bodies; token hashes of the modelled functions raise the budgets when they drift); base64 and from_utf8_lossy enter as '
               'hypotheses in the statements; the DCS string collection of the ANSI parser and the file containers around the font slots are exercised on the real code but not proved.')
 TECHNIQUE = 'Coq proof (list induction over glyph tables, offset arithmetic of the TDF block, fuel adequacy for the loaders) + differential correspondence + round-trip / no-panic search on the real code'
